@@ -38,11 +38,11 @@ worker_init = scan_common.worker_init
 
 SESS = (1, 2, 3)
 PROFILES = [(), (1,), (2,), (3,), (1, 2), (2, 3), (1, 2, 3)]
-BEHAV = ["pos1", "pos2", "pos3", "pos5", "nrc31", "nrc33", "len13", "silent", "pos4", "sil<3:nrc31", "sil<5:pos5"]
+BEHAV = ["pos1", "pos2", "pos3", "pos5", "nrc31", "nrc33", "len13", "silent", "pos4", "sil<3:nrc31", "sil<5:pos5", "nrc7e", "nrc12", "nrc22"]
 SIDS = [0xA0, 0xA7, 0xBA, 0xBF, 0x9C, 0x54, 0x7B]  # vendor / response-id services: every behaviour is a legal answer
 # ISO services: only answers that are well-formed for the probe PDUs (zero payload) are legal
 TYPED = {0x22: ["pos2", "nrc31", "nrc33", "len13", "silent"], 0x3E: ["pos1", "nrc31", "len13"], 0x31: ["pos3", "nrc31", "nrc33", "len13", "silent"], 0x85: ["pos1", "nrc31", "nrc33", "len13", "silent"]}
-MEANINGFUL = {"pos1", "pos2", "pos3", "pos5", "nrc31", "nrc33", "sil<3:nrc31", "sil<5:pos5"}
+MEANINGFUL = {"pos1", "pos2", "pos3", "pos5", "nrc31", "nrc33", "sil<3:nrc31", "sil<5:pos5", "nrc7e", "nrc12", "nrc22"}
 
 
 def positive_reply(sid: int, req: bytes) -> bytes:
@@ -62,9 +62,19 @@ def positive_reply(sid: int, req: bytes) -> bytes:
 class ServiceModel:
     """table: sid -> (profile, behaviour)"""
 
-    def __init__(self, table: dict[int, tuple[tuple[int, ...], str]], sessions: tuple[int, ...] = SESS) -> None:
+    def __init__(self, table: dict[int, tuple[tuple[int, ...], str]], sessions: tuple[int, ...] = SESS, s3: float | None = None,
+                 crash: tuple[int, float] | None = None) -> None:
         self.table = table
         self.sessions = sessions
+        self.s3 = s3  # the ECU falls back to the default session after s3 seconds without an answered request
+        self.crash = crash  # (service id, seconds): probing that service makes the ECU reboot (down, then default session)
+        self.crashed = False
+
+    def down_after(self, req: bytes) -> float:
+        if self.crash and not self.crashed and req[0] == self.crash[0] and req[1:] == bytes(len(req) - 1):
+            self.crashed = True
+            return self.crash[1]
+        return 0.0
 
     def implemented(self, session: int, sid: int) -> bool:
         if sid in (0x10, 0x11):
@@ -90,7 +100,8 @@ class ServiceModel:
             return bytes([0x7F, 0x11, 0x12]), session
         if sid == 0x3E and req == b"\x3e\x00" and sid not in self.table:
             return b"\x7e\x00", session
-        if sid == 0x22 and req == b"\x22\xf1\x86" and (sid not in self.table or session in self.table[sid][0]):
+        # (an ECU that reboots on its own can only be handled if it tells its session: F186 is always readable in the crash models)
+        if sid == 0x22 and req == b"\x22\xf1\x86" and (self.crash or sid not in self.table or session in self.table[sid][0]):
             return bytes([0x62, 0xF1, 0x86, session]), session
         if sid not in self.table:
             return bytes([0x7F, sid, 0x11]), session
@@ -116,13 +127,15 @@ class ServiceModel:
             return bytes([0x7F, sid, 0x31]), session
         if beh == "nrc33":
             return bytes([0x7F, sid, 0x33]), session
+        if beh in ("nrc7e", "nrc12", "nrc22"):
+            return bytes([0x7F, sid, int(beh[3:], 16)]), session
         if beh == "len13":
             return bytes([0x7F, sid, 0x13]), session
         return None, session  # silent
 
 
 def judge_services(item: dict[str, Any], box: dict[str, Any], model: ServiceModel, res: Result) -> None:
-    cfg = item["cfg"]
+    cfg = {k: val for k, val in item["cfg"].items() if k != "_model"}
     rp = {"item": item}
     where = f"[table={ {hex(k): v for k, v in item['table'].items()} } cfg={cfg}]"
 
@@ -324,6 +337,8 @@ def norm(item: dict[str, Any]) -> dict[str, Any]:
     """JSON round trips turn int keys into strings and tuples into lists"""
     item = dict(item)
     cfg = dict(item["cfg"])
+    if cfg.get("_model", {}).get("crash"):
+        cfg["_model"] = dict(cfg["_model"], crash=list(cfg["_model"]["crash"]))
     if cfg.get("skip"):
         cfg["skip"] = {int(k): val for k, val in cfg["skip"].items()}
     item["cfg"] = cfg
@@ -339,8 +354,9 @@ def run_item(item: dict[str, Any]) -> Result:
     item = norm(item)
     if item["kind"] == "services":
         table = {int(k): (tuple(val[0]), val[1]) for k, val in item["table"].items()}
-        model: Any = ServiceModel(table)
         cfg = dict(item["cfg"])
+        mopts = cfg.pop("_model", {})
+        model: Any = ServiceModel(table, s3=mopts.get("s3"), crash=tuple(mopts["crash"]) if mopts.get("crash") else None)
         kw: dict[str, Any] = {}
         if cfg.get("sessions") is not None:
             kw["sessions"] = list(cfg["sessions"])
@@ -349,6 +365,8 @@ def run_item(item: dict[str, Any]) -> Result:
         for k in ("scan_response_ids", "check_session", "reset"):
             if cfg.get(k):
                 kw[k] = cfg[k]
+        if "tester_present" in cfg:
+            kw["tester_present"] = cfg["tester_present"]
         box = scan_common.run_scanner("ServicesScanner", "ServicesScannerConfig", kw, model)
         res.seen("states", ("svc", repr(sorted(table.items())), repr(sorted(cfg.items(), key=str)), tuple(box["scanner"].result), box.get("exit")))
         if len(box["scanner"].result) > 2:
@@ -382,6 +400,17 @@ def run_item(item: dict[str, Any]) -> Result:
     return res
 
 
+SVC_CFGS_TIMED = [
+    # ECU with an S3 session timeout of 5 s; a reset (wait_for_ecu) between sessions; silent services make time pass
+    {"sessions": [2, 3], "reset": 1, "_model": {"s3": 5.0}},
+    {"sessions": [3, 2, 1], "reset": 1, "scan_response_ids": True, "_model": {"s3": 5.0}},
+    # probing service 0xA3 makes the ECU reboot (12 s down, back in the default session); the scanner watches the session
+    {"sessions": [3], "check_session": True, "_model": {"crash": [0xA3, 12.0]}},
+    {"sessions": [2, 3], "check_session": True, "_model": {"crash": [0xA3, 12.0], "s3": 5.0}},
+    # down times chosen so that the first session read after the crashing service is lost and a retry of it is answered
+    {"sessions": [3], "check_session": True, "tester_present": False, "_model": {"crash": [0xA3, 12.0]}},
+    {"sessions": [3, 2], "check_session": True, "_model": {"crash": [0xA3, 20.0]}},
+]
 SVC_CFGS = [
     {"sessions": [1, 2, 3]},
     {"sessions": None},
@@ -397,11 +426,11 @@ def items(tier: str, seed: int) -> list[Any]:
     out: list[Any] = []
     combos = list(itertools.product(range(len(PROFILES)), range(len(BEHAV))))  # 63
     n = len(combos)
-    # service scan: model m gives SID i the combination (m + 11*i) mod 77 -> every SID meets every combination once
+    # service scan: model m gives SID i the combination (m + 13*i) mod 98 -> every SID meets every combination once
     for m in range(n):
         table = {}
         for i, sid in enumerate(SIDS):
-            p, b = combos[(m + 11 * i) % n]
+            p, b = combos[(m + 13 * i) % n]
             table[sid] = (PROFILES[p], BEHAV[b])
         for i, (sid, behs) in enumerate(TYPED.items()):
             k = m + 5 * i
@@ -409,9 +438,11 @@ def items(tier: str, seed: int) -> list[Any]:
         cfgs = SVC_CFGS if not quick else [SVC_CFGS[m % len(SVC_CFGS)], SVC_CFGS[(m // 7 + 3) % len(SVC_CFGS)]]
         for ci, cfg in enumerate(dict.fromkeys(map(repr, cfgs))):
             out.append({"kind": "services", "table": table, "cfg": eval(cfg), "sample": m == 5 and ci == 0})  # noqa: S307
+        if m % (5 if quick else 2) == 0:
+            out.append({"kind": "services", "table": table, "cfg": SVC_CFGS_TIMED[(m // 5) % len(SVC_CFGS_TIMED)]})
     if not quick:
         for (p1, b1), (p2, b2) in itertools.product(combos, repeat=2):
-            if (p1 * 11 + b1 + p2 * 11 + b2) % 5:
+            if (p1 * 14 + b1 + p2 * 14 + b2) % 7:
                 continue  # a quarter of the full cross product; remaining pairs differ only in the unprobed combination
             out.append({"kind": "services", "table": {0xA0: (PROFILES[p1], BEHAV[b1]), 0xBA: (PROFILES[p2], BEHAV[b2])}, "cfg": {"sessions": [1, 2, 3]}})
     # identifier scan
